@@ -173,7 +173,7 @@ def finish(prop, tier, seed, nshards, mod, results, inconclusive, t0, is_replay)
             p.write_text(json.dumps(v2, indent=1, default=str))
             replay_paths.append(str(p))
 
-    if not is_replay:
+    if not is_replay and not os.environ.get("VERIF_NO_EVIDENCE"):
         ev = {
             "property_id": prop,
             "tier": tier,
